@@ -337,3 +337,7 @@ class PGPacker(pg.PluginGroup[Packer]):
             cont.manifest.manifest_exts[self.name] = pinfo.dict()
 
         cont.close()
+
+
+# the packer field refers to PGPacker, which is defined after the schema
+PackerInfo.update_forward_refs()
